@@ -17,6 +17,7 @@ SUITES = {
         "transactions/zz_verif_store_test.go": "transactions_store_test.go",
         "util/zz_verif_drv_test.go": "util_drv_test.go",
         "client/zz_verif_match_test.go": "client_match_test.go",
+        "gateway/zz_verif_drv_test.go": "gateway_drv_test.go",
     },
     "codec": {"pkg": "./packets1/", "run": "TestVerifCodec$", "driver": "codec", "timeout": "30m"},
     "topics": {"pkg": "./topics/", "run": "TestVerifTopics$", "driver": "topics", "timeout": "10m"},
@@ -24,6 +25,24 @@ SUITES = {
     "store": {"pkg": "./transactions/", "run": "TestVerifStore$", "driver": "store", "timeout": "10m"},
     "idseq": {"pkg": "./util/", "run": "TestVerifIDSeq$", "driver": "idseq", "timeout": "10m"},
     "match": {"pkg": "./client/", "run": "TestVerifMatch$", "driver": "match", "timeout": "20m"},
+    "gateway": {"pkg": "./gateway/", "run": "TestVerifGateway$", "driver": "gateway", "timeout": "40m",
+                "generator": "gen_gateway.py", "gen": lambda prop: GW_PROFILES.get(prop, GW_PROFILES["*"]),
+                "case_prefix": "case "},
+}
+
+# (profile, cases in the quick tier, cases in the thorough tier) per property: every property sees
+# the general mix; the profiles that stress its own part of the handler get more cases
+GW_PROFILES = {
+    "*": [("mix", 500, 5000), ("connect", 200, 2000), ("ids", 150, 1500), ("long", 100, 1000), ("collide", 150, 1500)],
+    "C04": [("mix", 300, 3000), ("ids", 600, 6000), ("connect", 100, 1000)],
+    "C06": [("mix", 300, 3000), ("collide", 800, 8000)],
+    "C07": [("mix", 400, 4000), ("connect", 600, 6000)],
+    "C08": [("mix", 300, 3000), ("connect", 800, 8000)],
+    "C09": [("mix", 300, 3000), ("connect", 800, 8000)],
+    "C10": [("mix", 300, 3000), ("connect", 500, 5000), ("long", 200, 2000)],
+    "C11": [("mix", 500, 5000), ("long", 500, 5000)],
+    "C12": [("mix", 300, 3000), ("long", 700, 7000)],
+    "C34": [("mix", 300, 3000), ("long", 700, 7000)],
 }
 
 
@@ -130,3 +149,104 @@ PROPS = {
         "explanation": "theorem c27_match (all filters/topics); exhaustive correspondence on the small alphabet",
     },
 }
+
+TB_GW = TB_COMMON + [
+    "Bisquitt/Model/Gateway.lean: hand-written model of one gateway session (handler1.go and the *_transaction.go files) with atomic-handler "
+    "semantics: one call of handleMqttSn / handleMqtt / one timer callback is one step; tied to the code by the gateway suite "
+    "(exact equality of timestamped outputs under testing/synctest, plus state / registry / sleep-buffer samples after every event)",
+    "the harness' fake datagram connection and fake broker connection (gateway_drv_test.go) and testing/synctest's virtual clock",
+    "paho's MQTT packet codec (the harness observes the structs the handler passes to Write, and feeds structs to the handler's reader)",
+]
+GW_RULE = ("sessions generated by lib/gen_gateway.py from one seed: scripts of timed events (client datagrams of every type incl. malformed ones, "
+           "broker packets, broker EOF/garbage, shutdown, ticks) over configurations (auth on/off, credentials, predefined topics, retry budget, "
+           "topic-ID range); each session is run on the real handler under testing/synctest and on the model; a case is non-trivial when it has at "
+           "least one event; the corpus of past witnesses (corpus/gateway.corpus) runs first; every case is distinct by construction (seeded)")
+
+
+def gw(prop, level_text, explanation, technique="Lean 4 theorem over the hand-written gateway model + differential correspondence + trace monitor",
+       level="proof", assumptions=None, suites=None, extra_relevant=None):
+    pre = "DIFF gateway-%s " % prop
+    return {
+        "level": level,
+        "level_text": level_text,
+        "technique": technique,
+        "suites": suites or ["gateway"],
+        "relevant": (lambda line: line.startswith(pre) or (extra_relevant(line) if extra_relevant else False)),
+        "rule": GW_RULE,
+        "trusted_base": TB_GW,
+        "assumptions": (assumptions or []) + [
+            "atomic handlers: the interleaving of handler goroutines inside one handler call is not modelled (the mutexes of handler1 are "
+            "covered by the lock facts where a property depends on them)",
+            "the session-end window: outputs within 100 ms after the session context is cancelled are compared as a set (goroutine shutdown order)"],
+        "explanation": explanation,
+    }
+
+
+PROPS.update({
+    "C01": gw("C01",
+              "Lean theorems c01_forward / c01_name / c01_drop about the model of the client-PUBLISH handler for ALL states and field values (exactly one MQTT "
+              "PUBLISH with the same payload/flags/QoS/message ID and the name the topic ID denotes; nothing forwarded otherwise); the whole-trace statement "
+              "(Spec.c01, incl. 'registered in this session') is checked as a monitor on every implementation trace; tie: gateway suite",
+              "theorems c01_forward, c01_name, c01_drop (one-step, all states); monitor Spec.c01 on implementation traces (whole sessions)"),
+    "C14": gw("C14",
+              "Lean theorem c14: from ANY reachable state of the gateway model, handling ANY event other than a datagram decoding to a plain DISCONNECT "
+              "(incl. all timers firing on the way and the session end) emits no MQTT DISCONNECT; c14_end: the session end closes the broker connection; "
+              "monitor Spec.c14 on every implementation trace; tie: gateway suite",
+              "theorems c14 (all runs, all events), c14_end; invariant WF carried through every model function (Lemmas/GwEmits, GwSteps*)"),
+    "C23": gw("C23",
+              "Lean theorem c23: in EVERY run of the gateway model every datagram emitted is at most 8192 bytes, has a length field equal to its size and decodes "
+              "as a packet of a gateway-to-client type (via the per-site permissions + the C21 codec theorems); monitor Spec.c23 on every datagram the real "
+              "gateway sends; the client-library half is decided by the client suite (when built)",
+              "theorems c23, datagramOk_of_snOk, sites_c23 (all runs); monitor Spec.c23 on implementation traces"),
+    "C24": gw("C24",
+              "Lean theorem c24 / c24_monitor: in EVERY run of the gateway model every MQTT packet emitted satisfies Spec.valid311 (QoS 0-2, PUBLISH topic non-empty "
+              "without wildcards, filters non-empty, CONNECT will flag iff non-empty will topic, will QoS <= 2); monitor Spec.c24 on every packet the real "
+              "gateway writes to the broker; tie: gateway suite",
+              "theorems c24, c24_monitor, sites_c24 (all runs); monitor Spec.c24 on implementation traces"),
+})
+
+PROPS.update({
+    "C03": gw("C03",
+              "Lean theorems c03_sn_simple / c03_mq_simple / c03_subscribe / c03_unsubscribe / c03_filter_* / c03_suback about the model's dispatchers for ALL states "
+              "and field values (one output per control packet, same message ID, resolved filter and requested QoS; SUBACK accepted iff broker code 0-2 with granted "
+              "QoS and the remembered topic ID); whole-session pairing checked by the monitor Spec.c03 on implementation traces; tie: gateway suite",
+              "theorems c03_* (one-step, all states); monitor Spec.c03 on implementation traces"),
+    "C04": gw("C04",
+              "Lean theorems about the topic-ID allocator of the model for ALL states: c04_allocs (any number of requests hands out strictly increasing, hence pairwise "
+              "distinct, IDs inside the range), c04_not_predefined, c04_after_wrap + c04_exhausted_sticky (after a wrap everything is refused, for good), "
+              "c04_refusal_codes; that stored bindings are never replaced is checked by the monitor Spec.c04 on registry samples after every event of every "
+              "implementation trace; tie: gateway suite (the ids profile runs sessions with tiny ID ranges to exhaustion)",
+              "theorems c04_allocs, c04_increasing, c04_not_predefined, c04_after_wrap, c04_exhausted_sticky, c04_refusal_codes; monitor Spec.c04",
+              assumptions=["the gateway constructs the sequence with MinTopicID <= MaxTopicID (regenerated constants 1 and 0xFFFE); the theorem is for every such range"]),
+    "C07": gw("C07",
+              "Lean theorems c07_client_cannot_activate (no client datagram activates a disconnected session), c07_activation (only the broker's CONNACK 0 for the "
+              "exchange awaiting it does), c07_connect_sent_* (that state is entered exactly when the CONNECT is sent), c07_illegal / c07_legal_when_disconnected "
+              "(everything else ends the session, nothing forwarded) for ALL states and packets; whole-session statement checked by the monitor Spec.c07; "
+              "tie: gateway suite",
+              "theorems c07_* (one-step, all states and packets); monitor Spec.c07 on implementation traces"),
+    "C08": gw("C08",
+              "Lean theorems c08_auth_enabled_waits, c08_plain / c08_plain_sent, c08_malformed, c08_unknown_method, c08_auth_disabled, c08_configured, c08_auth_ignored about "
+              "the model's connect exchange for ALL states and inputs; whole-exchange statement checked by the monitor Spec.c0809; tie: gateway suite (connect profile)",
+              "theorems c08_* (one-step, all states); monitor Spec.c0809 (C08 rules) on implementation traces"),
+    "C09": gw("C09",
+              "Lean theorems c09_will_topicreq, c09_nowill, c09_willtopic(_ignored), c09_will_fields, c09_willmsg(_ignored), c09_one_connect, c09_connack(_ignored), "
+              "c09_zero_keepalive about the model's connect exchange for ALL states and inputs; whole-exchange statement checked by the monitor Spec.c0809; "
+              "tie: gateway suite (connect profile)",
+              "theorems c09_* (one-step, all states); monitor Spec.c0809 (C09 rules) on implementation traces"),
+    "C10": gw("C10",
+              "Lean theorems c10_deadline (timer at now + connectTransactionTimeout = 5000 ms, constant regenerated from the source), c10_timer_kept_* (no step of the "
+              "exchange re-arms or stops it), c10_expire (expiry on an unfinished exchange cancels the session with the timeout error, C13 then closes the broker "
+              "connection); the real-time bound (timeout + poll interval) is measured on the real handler under the virtual clock by the monitor Spec.c10",
+              "theorems c10_*; monitor Spec.c10 (virtual-clock deadline) on implementation traces",
+              assumptions=["real-time bound measured under testing/synctest; the connection poll interval is the harness' fake connection's"]),
+    "C11": gw("C11",
+              "Lean theorems c11_asleep_silent, c11_flush, c11_wake (exactly the buffered packets, once each, in order, then PINGRESP; buffer empty; asleep again), "
+              "c11_asleep_mq for ALL states; whole-session statement (every sleep cycle, sleep-buffer samples) checked by the monitor Spec.c11; tie: gateway suite",
+              "theorems c11_*; monitor Spec.c11 on implementation traces"),
+    "C13": gw("C13",
+              "Lean theorems c13_end (end emits DISCONNECT iff active/awake, the end marker and the broker close, stops all timers; once), c13_causes (shutdown, broker "
+              "EOF/garbage, undecodable or illegal datagram cancel the session), c13_step_ends (the same step emits the end), c13_plain_disconnect; bounded real "
+              "time and goroutine exit are measured on the real handler (virtual clock, goroutine census) by the monitor Spec.c13",
+              "theorems c13_*; monitor Spec.c13 + goroutine-leak census on implementation traces",
+              assumptions=["goroutine exit and the poll-interval bound are runtime facts: measured, not proved"]),
+})
